@@ -10,20 +10,20 @@ package webrtc
 
 // A transceiver's mid is stored only by SetMid, and SetMid refuses to change a mid that is
 // set: by induction over any history a mid, once set, never changes.
-//@ field RTPTransceiver.mid props C09 C08 writers (*RTPTransceiver).SetMid
+//@ field RTPTransceiver.mid props C09 C08 C06 writers (*RTPTransceiver).SetMid
 
 //@ func (*RTPTransceiver).Mid
 //@ inline
 
 //@ func (*RTPTransceiver).SetMid
-//@ props C09
+//@ props C09 C06
 //@ requires t != nil
 //@ ensures old(t.Mid()) != "" ==> err != nil && t.Mid() == old(t.Mid())
 //@ ensures old(t.Mid()) == "" ==> err == nil && t.Mid() == mid
 //@ modifies t.mid
 
 // The mid counter is written only by CreateOffer and only grows.
-//@ field PeerConnection.greaterMid props C09 writers (*PeerConnection).CreateOffer
+//@ field PeerConnection.greaterMid props C09 C06 writers (*PeerConnection).CreateOffer
 
 // Assumed: the mid of a remote media section is a function of that section (as for C07).
 
@@ -41,17 +41,20 @@ package webrtc
 //  - visiting the local transceivers: the counter does not decrease (barring the wrap of the
 //    64-bit counter at 9223372036854775807), and afterwards it is at least the
 //    transceiver's mid when that is a decimal number;
+//  - neither loop is left early (every media section and every transceiver is visited);
 //  - the mid handed to a transceiver is the decimal form of the counter's value after it was
 //    stepped by one in the same iteration, and only a transceiver without a mid gets one.
 // Together: a newly allocated mid exceeds every numeric mid of the remote description and of
 // the transceivers visited before it (induction over the iterations is not formalised: the
 // loop havoc forgets the remote description, so the cross-iteration invariant is not stated).
 //@ func (*PeerConnection).CreateOffer #mids
-//@ props C09
+//@ props C09 C06
 //@ nosafety
 //@ requires pcValid(pc)
 //@ atcall (*RTPTransceiver).SetMid assert callarg1 == strconv.Itoa(pc.greaterMid) && pc.greaterMid == loophead(pc.greaterMid) + 1 && callarg0.Mid() == ""
 //@ loop 1 step specMidIsNumeric(ufstr("midOf", media)) ==> specMidNumber(ufstr("midOf", media)) <= pc.greaterMid
 //@ loop 1 step loophead(pc.greaterMid) <= pc.greaterMid
+//@ loop 1 break false
+//@ loop 2 break false
 //@ loop 2 step loophead(pc.greaterMid) != 9223372036854775807 ==> loophead(pc.greaterMid) <= pc.greaterMid
 //@ loop 2 step specMidIsNumeric(t.Mid()) && loophead(pc.greaterMid) != 9223372036854775807 ==> specMidNumber(t.Mid()) <= pc.greaterMid
